@@ -623,6 +623,8 @@ func streamAllow(g *G) { // C04
 func streamCrash(g *G) { // C05
 	g.emit("methods")
 	g.routerLine(900001, routerOpt{name: ""}) // NewRouter("") panics with a message, not a runtime fault
+	g.routerLine(900003, routerOpt{name: "dupic", icpt: []kv{{"digit", "1"}, {"word", "2"}, {"digit", "2"}}}) // the same rule twice: the constructor panics
+	g.emit("handle 900003 /a 1 %%- %s", encL([]string{"GET"}))
 	g.routerLine(900002, routerOpt{name: "long"})
 	for _, n := range []int{32766, 32767, 32768, 40000} { // one piece longer than MaxInt16 is a syntax error, not a fault
 		g.emit("syntax %s", encB("/"+strings.Repeat("a", n-1)))
@@ -922,7 +924,7 @@ func streamCors(g *G) { // C11, C12
 				h = append(h, kv{"Access-Control-Request-Method", g.pick([]string{"GET", "POST", "PUT", "DELETE", "get", "OPTIONS", "HEAD", "", "E", "GET, HEAD", "LETE", ", ", "HEAD, OPTIONS", "T", "POST, PUT", "GET,POST"})})
 			}
 			if g.chance(0.6) {
-				v := g.pick([]string{"Content-Type", "content-type", "X-Token, Content-Type", " x-token ,CONTENT-TYPE", "X-Other", "Content-Type,X-Other", "", " ", "a,,b", "X-Lower", "x-lower"})
+				v := g.pick([]string{"Content-Type", "content-type", "X-Token, Content-Type", " x-token ,CONTENT-TYPE", "X-Other", "Content-Type,X-Other", "", " ", "a,,b", "X-Lower", "x-lower", "Content-Type,X-\u212aey", "\u00a0Content-Type"})
 				if len(o.allowH) > 0 && g.chance(0.6) { // derived from the configuration: every configured name in some spelling
 					n := 1 + g.intn(len(o.allowH))
 					var items []string
@@ -1106,7 +1108,7 @@ func streamGroup(g *G) { // C13
 
 func streamHosts(g *G) { // C14
 	hid := 1
-	doms := []string{"example.com", "API.example.com", "b.example.com", "c.example.com", "d.example.com", "e.example.com", "f.example.com", "{sub}.example.com", "{sub:\\d+}.example.net", "{w:word}.example.org", "localhost", "::1", "fe80::1", "2001:DB8::A", "{a}.{b}.example.io", "x.example.com", "{-skip}.internal"}
+	doms := []string{"é.example.com", "example.com", "API.example.com", "b.example.com", "c.example.com", "d.example.com", "e.example.com", "f.example.com", "{sub}.example.com", "{sub:\\d+}.example.net", "{w:word}.example.org", "localhost", "::1", "fe80::1", "2001:DB8::A", "{a}.{b}.example.io", "x.example.com", "{-skip}.internal"}
 	for !g.full() {
 		var initial []string
 		for i := 0; i < g.intn(9); i++ {
@@ -1310,11 +1312,11 @@ func (g *G) script() string {
 	for i := 0; i < n; i++ {
 		switch g.intn(6) {
 		case 0:
-			acts = append(acts, fmt.Sprintf("s:%s=%s", encB(g.pick([]string{"X-A", "Content-Type", "Content-Length"})), encB(g.pick([]string{"1", "text/plain", "99"}))))
+			acts = append(acts, fmt.Sprintf("s:%s=%s", encB(g.pick([]string{"X-A", "Content-Type", "Content-Length", "x-a", "content-length", "X-a", "allow", "vary"})), encB(g.pick([]string{"1", "text/plain", "99"}))))
 		case 1:
-			acts = append(acts, fmt.Sprintf("a:%s=%s", encB("X-B"), encB(g.pick([]string{"u", "v"}))))
+			acts = append(acts, fmt.Sprintf("a:%s=%s", encB(g.pick([]string{"X-B", "x-b", "Vary", "VARY"})), encB(g.pick([]string{"u", "v"}))))
 		case 2:
-			acts = append(acts, "d:"+encB(g.pick([]string{"X-A", "Content-Length"})))
+			acts = append(acts, "d:"+encB(g.pick([]string{"X-A", "Content-Length", "x-A", "content-LENGTH", "vary"})))
 		case 3:
 			acts = append(acts, fmt.Sprintf("w:%d", []int{200, 201, 204, 404, 500}[g.intn(5)]))
 		default:
